@@ -25,12 +25,21 @@ def check(spec: dict) -> core.CaseResult:
     return dagprop.result(obs, findings, nt, labels, hang_is_violation=True, prop='C05')
 
 
+def judge_obs(case: dict, obs) -> core.CaseResult:
+    ex = oracles.expect_for(case, obs)
+    findings, nt = oracles.c05_maximal(case, obs, ex, dagprop.CPU)
+    return core.CaseResult(findings=findings, nontrivial=nt, labels=('exhaustive-small',), summary=None)
+
+
 def plan(tier: str) -> list[dict]:
-    return dagprop.std_plan(tier, controlled=(10, 150, 2500), serial=(1, 40, 800), fork=(0, 0, 0), spawn=(0, 0, 0),
-                            gated_fork=(4, 12, 400), gated_spawn=(1, 3, 60))
+    return list(dagprop.std_plan(tier, controlled=(10, 150, 2500), serial=(1, 40, 800), fork=(0, 0, 0), spawn=(0, 0, 0),
+                            gated_fork=(4, 12, 400), gated_spawn=(1, 3, 60))) + dagprop.exhaustive_jobs(tier, 4)
 
 
 def run_job(rec: core.Recorder, job: dict, seed: int) -> None:
+    if job['engine'] == 'exhaustive-small':
+        dagprop.run_exhaustive_job(rec, job, judge_obs, failing=False, cached=False)
+        return
     eng, gated = dagprop.backend_of(job['engine'])
     core.run_hypothesis(rec, job['engine'], c04.strategy(eng, gated, seed), check, max_examples=job['n'], seed=seed,
                         shrink=(eng == 'controlled' or rec.tier == 'thorough'))
